@@ -70,9 +70,12 @@ def main():
                 env = {**os.environ, "VERIF_REPO": tmp, "VERIF_NO_EVIDENCE": "1"}
                 if a.seed:
                     env["VERIF_SEED"] = a.seed
-                c = subprocess.run([os.path.join(VERIF, "check"), pid, a.tier], capture_output=True, text=True, env=env)
+                tier = meta.get("tier", a.tier)       # a change only the thorough tier is built to see says so in its meta
+                if tier != a.tier:
+                    env["VERIF_FUZZ"] = "0"
+                c = subprocess.run([os.path.join(VERIF, "check"), pid, tier], capture_output=True, text=True, env=env)
                 sigs = re.findall(r"violation sig=(\S+)", c.stdout)
-                res.append(f"{pid}:exit{c.returncode}({time.time() - t0:.0f}s)" + (" " + ";".join(sigs[:3]) if sigs else ""))
+                res.append(f"{pid}{'[' + tier + ']' if tier != a.tier else ''}:exit{c.returncode}({time.time() - t0:.0f}s)" + (" " + ";".join(sigs[:3]) if sigs else ""))
                 if c.returncode == 2:
                     res.append(c.stdout[-300:].replace("\n", " "))
             caught = any(":exit1" in x for x in res)
